@@ -10,11 +10,12 @@ from props import common as K
 
 META = {
     "level": "other",
+    "technique": "static analysis of type-checked MIR (rustc_private driver): must-pass-through and provenance rules on pre-transform coroutine MIR; abstract-interpretation tables for version gating",
     "explanation": "On the pre-transform coroutine MIR of Client::serial / Client::reset: an update is returned only on paths "
                    "that adopted the End-of-Data PDU's state (and its timing when present), every received payload PDU is "
                    "version-checked, converted and pushed with its own action before the next is read, serial starts the "
                    "target with reset=false and reset with true, the two loops perform the same checks; the server side "
-                   "names the source's state in CacheResponse/EndOfData (C08); version gating tables (payload kinds per "
+                   "names the source's state in CacheResponse/EndOfData (C08) and builds payload PDUs only through the version filter; version gating tables (payload kinds per "
                    "version, End-of-Data layout per version, both check_version functions) and the flags↔action mapping are "
                    "computed by abstract interpretation and compared with the RFC tables.",
     "not_decided": ["equality of the applied update sequence with the source's set for all histories, diffs vs resets, "
@@ -34,6 +35,18 @@ def run(ctx):
     ctx.rule("R-CHK", "every success path passes the required step")
     ctx.rule("R-SIB", "sibling functions perform the same checks")
     ctx.rule("R-REG", "decision table by abstract interpretation equals the spec")
+
+    # server side: what is sent to a client is restricted to its version's payload types
+    from engine.rules import calls_to
+    raw = [c for c in calls_to(f, lambda c: c.res == PDU + "Payload::new") if c.body.name.startswith("rtr::server::")
+           and not c.body.is_cleanup(c.bb)]
+    filt = [c for c in calls_to(f, lambda c: c.res == PDU + "Payload::new_if_supported") if c.body.name.startswith("rtr::server::")
+            and not c.body.is_cleanup(c.bb)]
+    okv = all(re.search(r"Connection::version\(\^?self\)", K.arg_renders(c)[0]) for c in filt)
+    ctx.ob("R-FLOW", "server:payload-pdus-version-filtered", not raw and len(filt) >= 2 and okv,
+           "every payload PDU the server writes (diff and full responses) is built by Payload::new_if_supported with the "
+           "connection's negotiated version, never by the unfiltered Payload::new",
+           detail={"unfiltered": [c.where() for c in raw], "filtered": [(c.where(), K.arg_renders(c)[0]) for c in filt]})
 
     checks = {}
     for meth, reset_flag in (("serial", "0"), ("reset", "1")):
